@@ -108,6 +108,14 @@ Proof.
 Qed.
 Print Assumptions checked_wf_implies_exact.
 
+(* A correspondence case that passes the check with a well-formed undo log is an instance of
+   reorg_equals_direct: the real scan after the real SetCurrentHeader is exactly the state of
+   following the winning branch from the (oracle) image of the common ancestor. *)
+Theorem checked_case_exact : forall id anc olds news pre post wn,
+  case_ok (CReorg id anc olds news pre post true wn) = true -> post = apply_all anc news.
+Proof. exact checked_case_exact_lemma. Qed.
+Print Assumptions checked_case_exact.
+
 (* Necessity: an undo log that is well formed in every respect EXCEPT that a lockup restore
    record does not carry the bytes that were there (the shape produced by AddNewLock when an
    update changes the delegate) is not inverted by the rollback. *)
